@@ -31,14 +31,84 @@ contract(
     }},
     loop_vars={"loop#1": {"cpts": "list[int]", "g_hit": "int[K]", "g_src": "int[K]"}},
     ghost=[
-        ("before:while np.any(scores > threshold):", "g_hit = lam('int', K, lambda i: 0)\ng_src = lam('int', K, lambda q: 0)"),
-        ("after:scores[(cpt >= starts) & (cpt <= ends - 1)] = 0.0",
+        ("before:while *", "g_hit = lam('int', K, lambda i: 0)\ng_src = lam('int', K, lambda q: 0)"),
+        ("after:scores[*",
          "g_hit = lam('int', K, lambda i: ite(starts[i] <= cpt and cpt <= ends[i] - 1 and g_sc0[i] != 0, len(cpts) - 1, g_hit[i]))\n"
          "g_src = lam('int', K, lambda q: ite(q == len(cpts) - 1, argmax, g_src[q]))"),
-        ("before:scores[(cpt >= starts) & (cpt <= ends - 1)] = 0.0", "g_sc0 = scores"),
+        ("before:scores[*", "g_sc0 = scores"),
         ("after:cpts.sort()",
          "assert forall(range(K), lambda i: implies(scores[i] != old(scores)[i], 0 <= sort_inv(cpts, g_hit[i]) and sort_inv(cpts, g_hit[i]) < len(cpts)"
          " and starts[i] <= cpts[sort_inv(cpts, g_hit[i])] and cpts[sort_inv(cpts, g_hit[i])] <= ends[i] - 1))"),
     ],
     props=["C07", "C04"],
+)
+
+# ------------------------------------------------------------------------------------------------ seeded intervals
+SEEDED_POST = {
+    "lengths_agree": "len(result[0]) == len(result[1])",
+    "nonempty": "len(result[0]) >= 1",
+    "range": "forall(range(len(result[0])), lambda q: 0 <= result[0][q] and result[0][q] < result[1][q] and result[1][q] <= n)",
+    "length": "forall(range(len(result[0])), lambda q: min_length <= result[1][q] - result[0][q] and "
+              "result[1][q] - result[0][q] <= min(max_length, n))",
+}
+contract(
+    target=f"{SB}::make_seeded_intervals",
+    params={"n": "int", "min_length": "int", "max_length": "int", "growth_factor": "real"},
+    requires=["min_length >= 2", "n >= min_length", "max_length >= min_length", "growth_factor > 1", "growth_factor <= 2"],
+    returns="(int[L],int[L])",
+    ensures=SEEDED_POST,
+    invariants={"loop#1": {
+        "lens": "len(starts) == len(ends) and len(starts) >= 1 + _k",
+        "entries": "forall(range(1, len(starts)), lambda q: 0 <= starts[q] and starts[q] < ends[q] and ends[q] <= n and "
+                   "min_length <= ends[q] - starts[q] and ends[q] - starts[q] <= max_length)",
+        "consts": "max_length <= n and max_length >= min_length and 2 * step_factor <= 1 and step_factor > 0 and "
+                  "forall(range(len(interval_lens)), lambda q: min_length <= interval_lens[q] and interval_lens[q] <= max_length)",
+    }},
+    loop_vars={"loop#1": {"starts": "list[int]", "ends": "list[int]"}},
+    level="P",
+    props=["C07", "C09", "C04", "C14"],
+)
+
+# ------------------------------------------------------------------------------------------------ run_seeded_binseg
+CS_FIELDS = {"change_score": "obj:~BaseChangeScore", "change_score.min_size": "int"}
+CS_FIT_MODS = {"change_score._X": "=X", "change_score._is_fitted": "=True", "change_score.ghost_tok": "int", "change_score.ghost_n": "=n",
+               "change_score.ghost_p": "=p", "change_score.ghost_q": "int"}
+M = "min_segment_length"
+TOK = "change_score.ghost_tok"
+
+
+def _interval_facts(sc, mx, st, en, i):
+    return (f"{st}[{i}] + {M} <= {mx}[{i}] and {mx}[{i}] <= {en}[{i}] - {M} and {sc}[{i}] == AGG3({TOK}, {st}[{i}], {mx}[{i}], {en}[{i}]) and "
+            f"forall(range({st}[{i}] + {M}, {en}[{i}] - {M} + 1), lambda k: AGG3({TOK}, {st}[{i}], k, {en}[{i}]) <= {sc}[{i}]) and "
+            f"forall(range({st}[{i}] + {M}, {mx}[{i}]), lambda k: AGG3({TOK}, {st}[{i}], k, {en}[{i}]) < {sc}[{i}])")
+
+
+contract(
+    target=f"{SB}::run_seeded_binseg",
+    params={"X": "real[n,p]", **CS_FIELDS, "threshold": "real", "min_segment_length": "int", "max_interval_length": "int", "growth_factor": "real"},
+    requires=[f"{M} >= 1", "change_score.min_size >= 1", f"change_score.min_size <= {M}", f"n >= 2 * {M}", f"max_interval_length >= 2 * {M}",
+              "growth_factor > 1", "growth_factor <= 2", "threshold >= 0"],
+    modifies=CS_FIT_MODS,
+    returns="(list[int],real[L],int[L],int[L],int[L])",
+    ensures={
+        "intervals": "len(result[1]) == len(result[3]) and len(result[2]) == len(result[3]) and len(result[4]) == len(result[3]) and len(result[3]) >= 1 and "
+                     f"forall(range(len(result[3])), lambda q: 0 <= result[3][q] and result[4][q] <= n and 2 * {M} <= result[4][q] - result[3][q] and "
+                     "result[4][q] - result[3][q] <= min(max_interval_length, n))",
+        # score and maximiser are max / first argmax over admissible splits of the column-summed change score
+        "max_argmax": f"forall(range(len(result[3])), lambda i: {_interval_facts('result[1]', 'result[2]', 'result[3]', 'result[4]', 'i')})",
+        "cpts_wellformed": f"forall(range(len(result[0])), lambda q: {M} <= result[0][q] and result[0][q] <= n - {M}) and "
+                           f"forall(range(len(result[0]) - 1), lambda q: result[0][q] + {M} <= result[0][q + 1])",
+        "cpts_supported": "forall(range(len(result[0])), lambda q: exists(range(len(result[3])), lambda i: result[0][q] == result[2][i] and result[1][i] > threshold))",
+        "cpts_exhaustive": "forall(range(len(result[3])), lambda i: implies(result[1][i] > threshold, exists(range(len(result[0])), "
+                           "lambda q: result[3][i] <= result[0][q] and result[0][q] <= result[4][i] - 1)))",
+    },
+    invariants={"loop#1": {
+        "shapes": "len(amoc_scores) == len(starts) and len(maximizers) == len(starts) and change_score._is_fitted == True and change_score.ghost_n == n",
+        "done": f"forall(range(_k), lambda i: {_interval_facts('amoc_scores', 'maximizers', 'starts', 'ends', 'i')})",
+    }},
+    ghost=[("after:agg_scores = *",
+            f"assert forall(range(start + {M}, end - {M} + 1), lambda k: agg_scores[k - (start + {M})] == AGG3({TOK}, start, k, end))")],
+    call_ghosts={"cpts = greedy_changepoint_selection(amoc_scores, maximizers, starts, ends, threshold)":
+                 {"greedy_changepoint_selection": {"m": M, "n": "n"}}},
+    props=["C07", "C04", "C10"],
 )
